@@ -32,7 +32,9 @@ Inductive case :=
                                                  heartbeats dropped), then OClosed at EOF *)
        (enq : Z)                              (* sum of topic message_count, after minus before *)
        (alive bystander : bool)
-       (intent : option (list (N * Z * bool))). (* generator's commands: (index in all_cmds, messages, within limits) *)
+       (intent : option (list (N * Z * bool)))  (* generator's commands: (index in all_cmds, messages, within limits) *)
+       (held : option (Z * Z)).               (* (messages that must still be held by the channel for this
+                                                 client after the case, in-flight + deferred as /stats shows them) *)
 
 Definition mk_cfg (max_msg max_body max_rdy : Z) (deflate_on snappy_on tls_on tls_required : bool) : cfg :=
   let d := default_cfg max_msg max_body max_rdy in
@@ -142,16 +144,28 @@ Definition is_publish (c : cmd) : bool :=
 Definition limited (c : cmd) : bool :=
   match c with CIdentify | CSub | CPub | CMpub | CDpub => true | _ => false end.
 
-Fixpoint walk (tlsreq : bool) (m : nat) (k : skind) (intent : list (N * Z * bool)) : option (bool * Z) :=
-  match m with
-  | O => Some (true, 0)
-  | S m' =>
-    match intent with
-    | [] => None
-    | (ci, n, valid) :: r =>
-      let c := cmd_at ci in
-      if one_frame c then
-        match walk tlsreq m' (next_kind c k) r with
+(* a zero-frame command that was executed without a fatal error: in state, and (RDY while
+   subscribed; FIN / REQ / TOUCH always) with parameters the protocol admits: a message id
+   of exactly 16 bytes, a numeric delay, a count within 0..max-rdy-count *)
+Definition zero_ok (tlsreq : bool) (c : cmd) (k : skind) (valid : bool) : bool :=
+  in_state c k && negb tlsreq
+  && match c, k with
+     | CRdy, SSubscribed => valid             (* after CLS a RDY is ignored *)
+     | CFin, _ | CReq, _ | CTouch, _ => valid
+     | _, _ => true
+     end.
+
+(* [full]: the connection ended without a fatal error, so EVERY command sent was executed *)
+Fixpoint walk (tlsreq full : bool) (m : nat) (k : skind) (intent : list (N * Z * bool)) : option (bool * Z) :=
+  match intent with
+  | [] => match m with O => Some (true, 0) | S _ => None end
+  | (ci, n, valid) :: r =>
+    let c := cmd_at ci in
+    if one_frame c then
+      match m with
+      | O => Some (negb full, 0)     (* full: an unanswered one-frame command *)
+      | S m' =>
+        match walk tlsreq full m' (next_kind c k) r with
         | Some (ok, s) =>
             Some (ok && in_state c k && (valid || negb (limited c))
                      && (negb tlsreq || match c with CIdentify => true | _ => false end)
@@ -159,17 +173,16 @@ Fixpoint walk (tlsreq : bool) (m : nat) (k : skind) (intent : list (N * Z * bool
                   if is_publish c then s + n else s)
         | None => None
         end
-      else
-        match walk tlsreq m k r with
-        | Some (ok, s) =>
-            Some (ok && in_state c k && negb tlsreq
-                     && match c, k with
-                        | CRdy, SSubscribed => valid       (* after CLS a RDY is ignored *)
-                        | _, _ => true
-                        end, s)
+      end
+    else
+      match m, full with
+      | O, false => Some (true, 0)
+      | _, _ =>
+        match walk tlsreq full m k r with
+        | Some (ok, s) => Some (ok && zero_ok tlsreq c k valid, s)
         | None => None
         end
-    end
+      end
   end.
 
 (* the commands that can have produced the fatal error: those after the [m]-th one-frame
@@ -197,7 +210,7 @@ Definition code_allowed (tlsreq : bool) (intent : option (list (N * Z * bool))) 
       code_eqb c E_INVALID || code_eqb c E_BAD_PROTOCOL ||
       if is_fatal c
       then existsb (fun k => code_in c (may_return_gated tlsreq k)) (window m l)
-      else existsb (fun e => code_in c (may_return (cmd_at (fst (fst e))))) l
+      else existsb (fun e => snd e && code_in c (may_return (cmd_at (fst (fst e))))) l
     end
   end.
 
@@ -223,8 +236,9 @@ Definition has_fatal (fs : list oframe) : bool :=
                     end) fs.
 
 Definition monitor (cf : cfg) (frames : list oframe) (enq : Z) (alive bystander : bool)
-           (intent : option (list (N * Z * bool))) : bool :=
+           (intent : option (list (N * Z * bool))) (held : option (Z * Z)) : bool :=
   let m := n_ok frames in
+  let full := ends_closed frames && negb (has_fatal frames) in
   alive && bystander
   && shape_ok frames
   && forallb (fun f => match f with OErr i => code_allowed (c_tls_required cf) intent m i | _ => true end) frames
@@ -232,20 +246,20 @@ Definition monitor (cf : cfg) (frames : list oframe) (enq : Z) (alive bystander 
   && match intent with
      | None => true
      | Some l =>
-       match walk (c_tls_required cf) m SInit l with Some (ok, s) => ok && (enq =? s) | None => false end
-       (* every command gets its answer: a connection that was closed without a fatal error
-          frame has answered every one-frame command it was sent *)
-       && (if ends_closed frames && negb (has_fatal frames)
-           then (m =? length (filter (fun e => one_frame (cmd_at (fst (fst e)))) l))%nat else true)
-     end.
+       (* every executed command was acceptable; the accepted publishes account for every
+          message; and every command got its answer (a connection closed without a fatal
+          error frame has executed, and answered, everything it was sent) *)
+       match walk (c_tls_required cf) full m SInit l with Some (ok, s) => ok && (enq =? s) | None => false end
+     end
+  && match held with Some (e, o) => e =? o | None => true end.
 
 Definition judge (c : case) : N :=
   match c with
-  | Conn cf stream jsons delivered full frames enq alive bystander intent =>
+  | Conn cf stream jsons delivered full frames enq alive bystander intent held =>
     let os := handle_conn cf (ledger delivered full) (json_of jsons) stream in
     let predicted := flat_map proj os in
     let agree := list_eqb oframe_eqb predicted frames && (count_enq os =? enq) in
-    verdict agree (monitor cf frames enq alive bystander intent)
+    verdict agree (monitor cf frames enq alive bystander intent held)
   end.
 
 (* short names for the driver's terms *)
